@@ -537,6 +537,10 @@ add("K-cdda_offset_arith_total", ["C12"], "metadata::cuesheet::verif_k::k_cdda_o
     stubs=["<u64 as FromStr>::from_str (oracle: any u64 or a parse error)"], timeout=900,
     assumes=["std's decimal parser returns some u64 or an error (its result is replaced by an oracle)"])
 
+add("K-autocorrelate_accepts_documented_orders", ["C15"], E + "k_autocorrelate_accepts_documented_orders", tier="quick", bound="windows of 1-2 whole-number samples; every LPC order 1..=32",
+    functions=["encode::autocorrelate"],
+    contract="autocorrelate: for every order Options::max_lpc_order admits (1..=32, K-options_setters) no panic (no debug assertion), min(order + 1, samples) lags, lag 0 is the energy", timeout=400)
+
 add("K-padding_roundtrip", ["C11", "C12"], M + "k_padding_roundtrip", tier="quick", bound="sizes <= 64 bytes; all stream contents and truncations",
     functions=["metadata::Padding::from_reader", "metadata::Padding::to_writer"],
     contract="PADDING: parse(size) consumes exactly size bytes (fails only on a short stream) and yields Padding{size}; serialising writes exactly size zero bytes; bytes() == size", timeout=300)
